@@ -215,8 +215,13 @@ fn scan_token_end(bytes: &[u8], start: usize) -> usize {
       }
     }
   } else {
-    // Single character (operator, delimiter, etc.)
+    // Single character (operator, delimiter, etc.). A non-ASCII character
+    // spans several bytes: advance to the next UTF-8 character boundary so
+    // the range never ends inside a multi-byte sequence.
     pos += 1;
+    while pos < bytes.len() && (bytes[pos] & 0xC0) == 0x80 {
+      pos += 1;
+    }
   }
   pos
 }
@@ -248,7 +253,13 @@ fn scan_token_start(bytes: &[u8], pos: usize) -> usize {
     }
     start
   } else {
-    pos
+    // Not an identifier character: step back to the first byte of the
+    // (possibly multi-byte) UTF-8 character that contains `pos`.
+    let mut start = pos;
+    while start > 0 && (bytes[start] & 0xC0) == 0x80 {
+      start -= 1;
+    }
+    start
   }
 }
 
